@@ -1,3 +1,66 @@
 import RpgpModel.Bytes
+import RpgpModel.Stream
+import RpgpModel.Canon
+import RpgpModel.Gen.Constants
+/-!
+# Driver — `rpgp_model`: one request line in, one canonical answer line out.
+
+Requests are `op k1=v1 k2=v2 …`; byte strings are lowercase hex (`-` = empty), lists of byte
+strings are comma separated.  Answers: `ok:<payload>`, `err:<class>`, or `bad-request`.
+-/
 open Rpgp
-def main : IO Unit := IO.println (toHex [1,2,255])
+
+abbrev Args := List (String × String)
+
+def parseArgs (ws : List String) : Args :=
+  ws.filterMap fun w =>
+    match w.splitOn "=" with
+    | [k, v] => some (k, v)
+    | _ => none
+
+def Args.get? (a : Args) (k : String) : Option String := (a.find? (·.1 == k)).map (·.2)
+
+def Args.bytes (a : Args) (k : String) : Option Bytes := a.get? k >>= fromHex
+
+def Args.nat (a : Args) (k : String) : Option Nat := a.get? k >>= String.toNat?
+
+def parseList (s : String) : Option (List Bytes) :=
+  if s = "-" then some [] else (s.splitOn ",").mapM fromHex
+
+def Args.list (a : Args) (k : String) : Option (List Bytes) := a.get? k >>= parseList
+
+def okBytes (b : Bytes) : String := "ok:" ++ hexOrDash b
+def okBool (b : Bool) : String := if b then "ok:1" else "ok:0"
+
+def handle (op : String) (a : Args) : Option String :=
+  match op with
+  | "canon_hasher" => do
+    let cs ← a.list "chunks"
+    pure (okBytes (hashedText cs))
+  | "canon_reader" => do
+    let d ← a.bytes "data"
+    pure (okBytes (normalizedRead Gen.normalizedReaderWindow d))
+  | "canon_replace" => do
+    let d ← a.bytes "data"
+    pure (okBytes (replaceNewlines CRLF d))
+  | "crlf_accepts" => do
+    let cs ← a.list "chunks"
+    pure (okBool (crlfCheck cs))
+  | _ => none
+
+def answer (line : String) : String :=
+  match line.trimAscii.toString.splitOn " " with
+  | [] => "bad-request"
+  | op :: rest => (handle op (parseArgs rest)).getD "bad-request"
+
+partial def loop (hin hout : IO.FS.Stream) : IO Unit := do
+  let line ← hin.getLine
+  if line.isEmpty then return ()
+  hout.putStrLn (answer line)
+  loop hin hout
+
+def main : IO Unit := do
+  let hin ← IO.getStdin
+  let hout ← IO.getStdout
+  loop hin hout
+  hout.flush
